@@ -7,7 +7,10 @@ code -> spec: the real runtime Engine (real registry with several trained genera
               (1) every awaited response must carry its own request id and the stamp of the generation its application
               selects, a failing request must fail alone with a platform error; (2) with FORML_VERIF=1 the per-process task
               life-cycle logs of the guarded hooks are validated by specs/TraceServing.tla and the task<->request binding
-              TLC derives from them is cross-checked with the responses.
+              TLC derives from them is cross-checked with the responses; (3) the same engine behind the real REST gateway
+              (Starlette application driven in-process over ASGI): concurrent HTTP requests with negotiated content types,
+              the event log (send / handler call / handler return / response) validated by specs/TraceGateway.tla against
+              specs/Gateway.tla (+ the operators of Negotiation.tla).
 """
 import asyncio
 import json
@@ -220,7 +223,8 @@ def main(chk):
         if consumed < events or not complete:
             chk.fail(f'C16 pool={meta["processes"]}: the task life-cycle log is not a behaviour of the serving protocol '
                      f'({consumed} of {events} events explained, complete={bool(complete)}): a task was lost, duplicated or answered '
-                     'with another task\'s id', {'processes': meta['processes'], 'batches': meta['batches']})
+                     'with another task\'s id', {'processes': meta['processes'], 'batches': meta['batches'], 'procs': run['procs'],
+                                                  'executors': run['executors'], 'explained': consumed})
             continue
         pairs = binds.get(i, [])
         seen = {}
@@ -234,6 +238,10 @@ def main(chk):
             good += 1
     chk.validated(good)
     chk.extra['hook_traces'] = {'runs': len(runs), 'accepted': good, 'events': sum(verdicts[i][2] for i in range(1, len(runs) + 1))}
+    # ---- 4. the outermost interface: the REST gateway in front of the same engine (Gateway.tla / TraceGateway.tla)
+    from harness import gateway
+    gateway.check(chk, rnd, registry, feed, napps, [(1, [10]), (2, [24, 12])] if chk.quick else
+                  [(p, sizes) for p in (1, 2, 3, 4) for sizes in ([1, 2, 3], [16, 32], [64])], base=base + 1000)
     shutil.rmtree(work, ignore_errors=True)
     chk.assume('besides the three listed platform errors a request refused by a pipeline actor with a forml error (poison) is injected; '
                'it must fail alone like them')
